@@ -814,3 +814,115 @@ Proof.
       apply (Npre2 a' b' q E Hb).
     + exact Npost2.
 Qed.
+
+(* ====================================================================== *)
+(* 'k', '--flag', 'v'                                     _FORMAT_PATTERNS_2[8] *)
+(* ====================================================================== *)
+Definition shapeR_cmd1 (kcs : list cset) : asub :=
+  [AOne cs_quotes; ARun cs_quoted false; AKey kcs; ARun dig_cs false; AOne cs_quotes; ARun py_space false; AOne [(44, 44)];
+   ARun py_space false; AOne [(39, 39)]; AOne [(45, 45)]; ARun [(45, 45)] false; ARun cs_flag true; AOne [(39, 39)];
+   ARun py_space false; AOne [(44, 44)]; ARun py_space false; ARun cs_u false; AOne cs_quotes; ARun cs_quoted false; AOne cs_quotes].
+Lemma checks_cmd1 : forallb (fun k => check_others k (shape_of (shapeR_cmd1 (kcs_of k))) 8 && check_self k (shapeR_cmd1 (kcs_of k)) 8) gen_keys = true.
+Proof. vm_cast_no_check (eq_refl true). Qed.
+
+Definition msg_cmd1 (pre : str) (q1 : N) (pfx K d : str) (q2 : N) (w1 w2 dash fl w3 w4 u : str) (q3 : N) (x : str) (q4 : N) (post : str) : str :=
+  pre ++ q1 :: pfx ++ K ++ d ++ q2 :: w1 ++ 44 :: w2 ++ 39 :: 45 :: dash ++ fl ++ 39 :: w3 ++ 44 :: w4 ++ u ++ q3 :: x ++ q4 :: post.
+
+Lemma whole_cmd1_step k K d q1 pfx q2 w1 w2 dash fl w3 w4 u q3 q4 v mask pre post :
+  In k gen_keys -> casing_of k K -> forallb ascii_digit d = true ->
+  is_quote q1 = true -> is_quote q2 = true -> is_quote q3 = true -> is_quote q4 = true ->
+  forallb quoted_char pfx = true -> forallb is_space w1 = true -> forallb is_space w2 = true ->
+  (dash = [] \/ dash = [45]) -> all_in cs_flag fl = true -> (1 <= length fl)%nat ->
+  forallb is_space w3 = true -> forallb is_space w4 = true -> opt_u u ->
+  forallb quoted_char v = true -> forallb quoted_char mask = true ->
+  forallb ctx_char pre = true -> forallb ctx_char post = true ->
+  only_at gen_ci_table k (msg_cmd1 pre q1 pfx K d q2 w1 w2 dash fl w3 w4 u q3 v q4 post) [(length pre + 1 + length pfx)%nat] = true ->
+  only_at gen_ci_table k (msg_cmd1 pre q1 pfx K d q2 w1 w2 dash fl w3 w4 u q3 mask q4 post) [(length pre + 1 + length pfx)%nat] = true ->
+  others_absent k (msg_cmd1 pre q1 pfx K d q2 w1 w2 dash fl w3 w4 u q3 v q4 post) = true ->
+  others_absent k (msg_cmd1 pre q1 pfx K d q2 w1 w2 dash fl w3 w4 u q3 mask q4 post) = true ->
+  mask_password (msg_cmd1 pre q1 pfx K d q2 w1 w2 dash fl w3 w4 u q3 v q4 post) mask
+  = msg_cmd1 pre q1 pfx K d q2 w1 w2 dash fl w3 w4 u q3 mask q4 post.
+Proof.
+  intros Hin Hcase Hd Hq1 Hq2 Hq3 Hq4 Hp Hw1 Hw2 Hdash Hfl Hlf Hw3 Hw4 Hu Hv Hmk Hpre Hpost Hov Hom Hav Ham.
+  destruct (gen_key_ok k Hin) as [Hne Hk].
+  pose proof (casing_ok_of k K Hk Hcase) as HK. pose proof (digits_in d Hd) as Hd'.
+  pose proof (spaces_in _ Hw1) as Hw1'. pose proof (spaces_in _ Hw2) as Hw2'.
+  pose proof (spaces_in _ Hw3) as Hw3'. pose proof (spaces_in _ Hw4) as Hw4'.
+  pose proof (quote_in _ Hq1) as Hq1'. pose proof (quote_in _ Hq2) as Hq2'.
+  pose proof (quote_in _ Hq3) as Hq3'. pose proof (quote_in _ Hq4) as Hq4'.
+  pose proof (all_in_impl _ _ _ quoted_in Hp) as Hp'.
+  pose proof (all_in_impl _ _ _ quoted_in Hv) as Hv'. pose proof (all_in_impl _ _ _ quoted_in Hmk) as Hmk'.
+  destruct (opt_u_in u Hu) as [Hu' Hul].
+  assert (Hdash' : all_in [(45, 45)] dash = true) by (destruct Hdash as [-> | ->]; reflexivity).
+  assert (Hdl : (length dash <= 1)%nat) by (destruct Hdash as [-> | ->]; cbn; repeat constructor).
+  pose proof (ctx_all _ Hpre) as Hpre'. pose proof (ctx_all _ Hpost) as Hpost'.
+  pose proof checks_cmd1 as Hch. rewrite forallb_forall in Hch. specialize (Hch k Hin).
+  apply andb_true_iff in Hch. destruct Hch as [Hco Hcs].
+  assert (Parts : forall x, all_in cs_quoted x = true ->
+            only_at gen_ci_table k (msg_cmd1 pre q1 pfx K d q2 w1 w2 dash fl w3 w4 u q3 x q4 post) [(length pre + 1 + length pfx)%nat] = true ->
+            let S := q1 :: pfx ++ K ++ d ++ q2 :: w1 ++ 44 :: w2 ++ 39 :: 45 :: dash ++ fl ++ 39 :: w3 ++ 44 :: w4 ++ u ++ q3 :: x ++ q4 :: post in
+            conc gen_ci_table k (shape_of (shapeR_cmd1 (kcs_of k))) (pre ++ S) /\
+            (forall a' b', pre = a' ++ b' -> b' <> [] -> conc gen_ci_table k (ARun ctx_cs true :: shapeR_cmd1 (kcs_of k) ++ [ARun ctx_cs false]) (b' ++ S)) /\
+            conc gen_ci_table k [ARun ctx_cs false] post).
+  { intros x Hx' Hox.
+    pose proof (conc_parts gen_ci_table k Hne ctx_cs false pre
+                  [(AOne cs_quotes, [q1]); (ARun cs_quoted false, pfx); (AKey (kcs_of k), K); (ARun dig_cs false, d); (AOne cs_quotes, [q2]);
+                   (ARun py_space false, w1); (AOne [(44, 44)], [44]); (ARun py_space false, w2); (AOne [(39, 39)], [39]); (AOne [(45, 45)], [45]);
+                   (ARun [(45, 45)] false, dash); (ARun cs_flag true, fl); (AOne [(39, 39)], [39]); (ARun py_space false, w3); (AOne [(44, 44)], [44]);
+                   (ARun py_space false, w4); (ARun cs_u false, u); (AOne cs_quotes, [q3]); (ARun cs_quoted false, x); (AOne cs_quotes, [q4])]
+                  ctx_cs false post (msg_cmd1 pre q1 pfx K d q2 w1 w2 dash fl w3 w4 u q3 x q4 post)) as P.
+    cbn zeta in P. apply P; clear P.
+    - reflexivity.
+    - valid_segs Hne. intros _. destruct fl; [inversion Hlf|discriminate].
+    - intros a b E Hp0. pose proof (only_at_spec _ _ _ _ Hox a b E Hp0) as Hi. cbn [key_offsets fst snd is_key app].
+      clear - Hi. destruct Hi as [Hi|[]]. left. rewrite <- Hi. cbn [length]. lia. }
+  destruct (Parts v Hv' Hov) as (Cv & Cpre & Cpost). destruct (Parts mask Hmk' Hom) as (Cm & _ & _).
+  assert (Hrj : nth_error (pats k) 8 = Some (gen_tp2_8 k)) by reflexivity.
+  destruct (self_nomatch k _ 8 _ pre _ post Hin Hcs Hrj Cpre Cpost) as [Npre Npost].
+  unfold msg_cmd1.
+  apply (whole_frame k 8 (gen_tp2_8 k) (t2 mask) (shapeR_cmd1 (kcs_of k)) _ _ mask Hin eq_refl Hco Cv Cm);
+    [| |exact Hav|exact Ham].
+  2:{ replace (pre ++ q1 :: pfx ++ K ++ d ++ q2 :: w1 ++ 44 :: w2 ++ 39 :: 45 :: dash ++ fl ++ 39 :: w3 ++ 44 :: w4 ++ u ++ q3 :: v ++ q4 :: post)
+        with ((pre ++ q1 :: pfx) ++ K ++ (d ++ q2 :: w1 ++ 44 :: w2 ++ 39 :: 45 :: dash ++ fl ++ 39 :: w3 ++ 44 :: w4 ++ u ++ q3 :: v ++ q4 :: post)) by norm_app2.
+      apply (key_occurs k K _ _ Hk Hcase). }
+  set (h := [q1] ++ pfx ++ K ++ d ++ [q2] ++ w1 ++ [44] ++ w2 ++ [39] ++ [45] ++ dash ++ fl ++ [39] ++ w3 ++ [44] ++ w4 ++ u ++ [q3]).
+  assert (QD : exists g, match_at (gen_tp2_8 k) (h ++ v ++ q4 :: post) (blen pre) = Some (blen (pre ++ h ++ v ++ [q4]), g) /\
+            gget g 1 = Some (blen pre, blen (pre ++ h)) /\ gget g 2 = Some (blen (pre ++ h ++ v), blen (pre ++ h ++ v ++ [q4]))).
+  { cbv [gen_tp2_8].
+    eapply (quote_delimited_at cs_quotes)
+      with (h0 := [q1] ++ pfx ++ K ++ d ++ [q2] ++ w1 ++ [44] ++ w2 ++ [39] ++ [45] ++ dash ++ fl ++ [39] ++ w3 ++ [44] ++ w4 ++ u) (q3 := q3).
+    - cbn [qcount]. rewrite (qcount_keyseq _ _ Hk). vm_compute. reflexivity.
+    - cbn [last_q]. rewrite last_q_keyseq by (right; exact I). vm_compute. reflexivity.
+    - vmr.
+    - vmr.
+    - replace (h ++ v ++ q4 :: post)
+        with (q1 :: pfx ++ K ++ d ++ q2 :: w1 ++ 44 :: w2 ++ 39 :: 45 :: dash ++ fl ++ 39 :: w3 ++ 44 :: w4 ++ u ++ q3 :: v ++ q4 :: post)
+        by (unfold h; norm_app2).
+      mt_go.
+    - unfold h. rewrite !countq_app.
+      rewrite (countq_one cs_quotes _ Hq1'), (countq_one cs_quotes _ Hq2'), (countq_one cs_quotes _ Hq3').
+      rewrite (countq_none cs_quotes _ _ Hp' ltac:(vmr)), (countq_casing _ _ Hk HK), (countq_none cs_quotes _ _ Hd' ltac:(vmr)).
+      rewrite (countq_none cs_quotes _ _ Hw1' ltac:(vmr)), (countq_none cs_quotes _ _ Hw2' ltac:(vmr)), (countq_none cs_quotes _ _ Hu' ltac:(vmr)).
+      rewrite (countq_none cs_quotes _ _ Hw3' ltac:(vmr)), (countq_none cs_quotes _ _ Hw4' ltac:(vmr)).
+      rewrite (countq_none cs_quotes _ _ Hdash' ltac:(vmr)), (countq_none cs_quotes _ _ Hfl ltac:(vmr)).
+      reflexivity.
+    - unfold h. norm_app2.
+    - exact Hq3'.
+    - exact Hv'.
+    - exact Hq4'. }
+  destruct QD as (g & Hm & G1 & G2).
+  replace (pre ++ q1 :: pfx ++ K ++ d ++ q2 :: w1 ++ 44 :: w2 ++ 39 :: 45 :: dash ++ fl ++ 39 :: w3 ++ 44 :: w4 ++ u ++ q3 :: v ++ q4 :: post)
+    with (pre ++ (h ++ v ++ [q4]) ++ post) by (unfold h; norm_app2).
+  replace (pre ++ q1 :: pfx ++ K ++ d ++ q2 :: w1 ++ 44 :: w2 ++ 39 :: 45 :: dash ++ fl ++ 39 :: w3 ++ 44 :: w4 ++ u ++ q3 :: mask ++ q4 :: post)
+    with (pre ++ h ++ mask ++ [q4] ++ post) by (unfold h; norm_app2).
+  apply (two_group_ctx (gen_tp2_8 k) pre h v [q4] post mask g).
+  - replace ((h ++ v ++ [q4]) ++ post) with (h ++ v ++ q4 :: post) by norm_app2. exact Hm.
+  - unfold h. discriminate.
+  - exact G1.
+  - exact G2.
+  - intros a' b' q E Hb.
+    replace (b' ++ (h ++ v ++ [q4]) ++ post)
+      with (b' ++ q1 :: pfx ++ K ++ d ++ q2 :: w1 ++ 44 :: w2 ++ 39 :: 45 :: dash ++ fl ++ 39 :: w3 ++ 44 :: w4 ++ u ++ q3 :: v ++ q4 :: post) by (unfold h; norm_app2).
+    apply (Npre a' b' q E Hb).
+  - exact Npost.
+Qed.
